@@ -227,7 +227,7 @@ Definition biter_create (blk : block) : res biter :=
     if n =? 0 then Ok (biter_empty SOk)
     else Ok (mk_biter (blk_data blk) false (blk_restarts blk) n
                       (drop_n (blk_restarts blk) (blk_data blk))
-                      (blk_restarts blk) n [] 0 0 [] [] SOk).
+                      (blk_restarts blk) n [] 0 0 (blk_data blk) (blk_data blk) SOk).
 
 Definition biter_valid (it : biter) : bool :=
   negb (bi_empty it) && (bi_cur it <? bi_restarts it).
@@ -240,10 +240,11 @@ Definition set_pos (it : biter) (cur ridx : N) : biter :=
            cur ridx (bi_key it) (bi_voff it) (bi_vlen it) (bi_vrest it) (bi_next it) (bi_status it).
 Definition set_ridx (it : biter) (ridx : N) : biter := set_pos it (bi_cur it) ridx.
 
-(* ldb_blockiter_corruption *)
+(* ldb_blockiter_corruption (the value slice is reset; it is never read before
+   the next seek_to_restart_point) *)
 Definition biter_corrupt (it : biter) : biter :=
   mk_biter (bi_data it) (bi_empty it) (bi_restarts it) (bi_num it) (bi_rarr it)
-           (bi_restarts it) (bi_num it) [] 0 0 [] [] SCorruption.
+           (bi_restarts it) (bi_num it) [] 0 0 (bi_data it) (bi_data it) SCorruption.
 
 (* get_restart_point: ldb_fixed32_decode(data + restarts + index * 4), clamped *)
 Definition get_restart_point (it : biter) (index : N) : res N :=
